@@ -552,6 +552,25 @@ impl<'tcx> Cx<'tcx> {
             }
             _ => return None,
         };
+        let mut out_extra: Vec<String> = Vec::new();
+        if matches!(kind, DefKind::Fn | DefKind::AssocFn | DefKind::Closure) {
+            for (pi, pb) in self.tcx.promoted_mir(d).iter_enumerated() {
+                let mut pblocks = Vec::new();
+                for bb in pb.basic_blocks.iter() {
+                    pblocks.push(self.block(bb, pb, d));
+                }
+                let mut plocals = Vec::new();
+                for ldcl in pb.local_decls.iter() {
+                    plocals.push(obj(&[("ty", esc(&self.ty(ldcl.ty))), ("name", "null".into())]));
+                }
+                out_extra.push(obj(&[
+                    ("index", format!("{}", pi.as_usize())),
+                    ("ret_ty", esc(&self.ty(pb.return_ty()))),
+                    ("locals", arr(plocals)),
+                    ("blocks", arr(pblocks)),
+                ]));
+            }
+        }
         let mut locals = Vec::new();
         let mut names: Vec<Option<String>> = vec![None; body.local_decls.len()];
         for vdi in &body.var_debug_info {
@@ -616,6 +635,7 @@ impl<'tcx> Cx<'tcx> {
             ("locals", arr(locals)),
             ("upvars", arr(upvars)),
             ("blocks", arr(blocks)),
+            ("promoted", arr(out_extra)),
         ]))
     }
 
